@@ -1,0 +1,57 @@
+//go:build verif
+
+package bed
+
+// Machine-checked contracts for /verif/govc (contract-based deductive
+// verification). Comments only; this file compiles to nothing and is only
+// read with the build tag "verif".
+
+//@ func reader.read
+//@   props C07 C11 C18
+//@   let S := r.r
+//@   let p0 := old(r.r.pos)
+//@   let active0 := S.fault && (!old(r.r.fired) || S.forever)
+//@   ensures result.1 == nil <==> result.0 != nil
+//@   ensures result.1 == 1 ==> S.pos == S.end && !active0
+//@   ensures S.pos >= p0 && S.pos <= S.end
+//@   ensures result.1 == nil ==> S.pos > p0
+//@   ensures p0 == S.end && active0 ==> result.1 == S.err
+//@   ensures S.fired == (old(r.r.fired) || result.1 == S.err)
+//@   loop 1
+//@     invariant r != nil
+//@     invariant p0 <= r.r.pos && r.r.pos <= S.end
+//@     invariant r.r.fired == old(r.r.fired)
+//@     decreases S.end - r.r.pos
+
+//@ func Reader
+//@   props C06 C07 C18
+//@   yields Y
+//@   ensures forall t int :: 0 <= t && t < len(Y) && Y[t].1 != nil ==> t == len(Y)-1
+//@   ensures forall t int :: 0 <= t && t < len(Y) ==> (Y[t].1 != nil <==> Y[t].0 == nil)
+//@   ensures forall t int :: 0 <= t && t < len(Y) ==> Y[t].1 != 1
+//@   loop 1
+//@     invariant rd != nil
+//@     invariant forall t int :: 0 <= t && t < len(Y) ==> Y[t].1 == nil && Y[t].0 != nil
+//@     invariant rd.r.pos <= rd.r.end
+//@     decreases rd.r.end - rd.r.pos
+
+//@ func File
+//@   props C06 C18
+//@   yields Y
+//@   let ZR := items(Reader, opened(file))
+//@   ensures openFails(file) ==> len(Y) == 1 && Y[0].1 != nil && Y[0].0 == nil
+//@   ensures !openFails(file) && !stopped ==> len(Y) == len(ZR)
+//@   ensures !openFails(file) ==> len(Y) <= len(ZR) && forall t int :: 0 <= t && t < len(Y) ==> same(Y[t], ZR[t])
+//@   ensures forall t int :: 0 <= t && t < len(Y) && Y[t].1 != nil ==> t == len(Y)-1
+//@   loop 1
+//@     invariant !openFails(file) && len(Y) == K && forall t int :: 0 <= t && t < K ==> same(Y[t], ZR[t])
+
+//@ func parseLine
+//@   props C04 C11
+//@   thin
+//@   ensures result.1 == nil <==> result.0 != nil
+//@   ensures result.1 == nil || localErr(result.1)
+//@   loop 2
+//@     invariant bed != nil && len(bed.BlockSizes) == len(sizes)
+//@   loop 3
+//@     invariant bed != nil && len(bed.BlockStarts) == len(starts)
